@@ -159,7 +159,7 @@ CHECKS = {
         technique="two-level crash-point enumeration (crash during the recovery of a crash) over strace-recorded runs",
         env=dict(VERIF_SHRINK="5s"),
         rule="first level: crash states of strace-recorded generated histories at points where replay has work (plus "
-             "synthetic empty / 5-byte left-over WAL files); the production start-up on such a state is itself traced and "
+             "synthetic empty / 5-byte left-over WAL files and a *.walfile.tmp file set aside by an earlier start-up, which must stay untouched); the production start-up on such a state is itself traced and "
              "EVERY prefix of its mutating system calls is materialised and restarted again (left-over WALs: crashed "
              "mid-replay, already replayed, two at once), then restarted once more; oracle: C01/C02 relations after the "
              "final restart, exactly one WAL (the instance's own) and no .tmp after every completed start-up, own WAL "
